@@ -23,10 +23,11 @@ pub enum ElemKind {
     U32,
     OptU64,
     OptStr,
+    UnitTy,
 }
 
 impl ElemKind {
-    pub const ALL: [ElemKind; 11] = [ElemKind::U8, ElemKind::U64, ElemKind::Str, ElemKind::T24, ElemKind::Zst, ElemKind::Nested, ElemKind::Big, ElemKind::F64, ElemKind::U32, ElemKind::OptU64, ElemKind::OptStr];
+    pub const ALL: [ElemKind; 12] = [ElemKind::U8, ElemKind::U64, ElemKind::Str, ElemKind::T24, ElemKind::Zst, ElemKind::Nested, ElemKind::Big, ElemKind::F64, ElemKind::U32, ElemKind::OptU64, ElemKind::OptStr, ElemKind::UnitTy];
     pub fn tyname(self) -> &'static str {
         match self {
             ElemKind::U8 => "u8",
@@ -40,6 +41,7 @@ impl ElemKind {
             ElemKind::U32 => "u32",
             ElemKind::OptU64 => "u64?",
             ElemKind::OptStr => "String?",
+            ElemKind::UnitTy => "()",
         }
     }
     pub fn suffix(self) -> &'static str {
@@ -55,6 +57,7 @@ impl ElemKind {
             ElemKind::U32 => "u32",
             ElemKind::OptU64 => "optu64",
             ElemKind::OptStr => "optstr",
+            ElemKind::UnitTy => "unit",
         }
     }
 }
@@ -162,6 +165,17 @@ impl Elem for Option<RotoString> {
     }
     fn debug(&self) -> String {
         format!("{self:?}")
+    }
+}
+
+impl Elem for () {
+    const KIND: ElemKind = ElemKind::UnitTy;
+    fn from_m(_: &MVal, _: &Inner) -> Self {}
+    fn to_m(&self, _: &mut Inner) -> Result<MVal, String> {
+        Ok(MVal::Unit)
+    }
+    fn debug(&self) -> String {
+        "()".into()
     }
 }
 
@@ -458,6 +472,7 @@ pub struct Warm {
     pub u32: Arc<Fns<u32>>,
     pub optu64: Arc<Fns<Option<u64>>>,
     pub optstr: Arc<Fns<Option<RotoString>>>,
+    pub unit: Arc<Fns<()>>,
     pub sum_u64: F<fn(List<u64>) -> u64>,
     pub join_str: F<fn(List<RotoString>, RotoString) -> RotoString>,
 }
@@ -489,6 +504,7 @@ pub fn warm() -> Warm {
         u32: Arc::new(Fns::load(&mut pkg)),
         optu64: Arc::new(Fns::load(&mut pkg)),
         optstr: Arc::new(Fns::load(&mut pkg)),
+        unit: Arc::new(Fns::load(&mut pkg)),
         sum_u64: pkg.get_function("sum_u64").expect("sum_u64"),
         join_str: pkg.get_function("join_str").expect("join_str"),
         _rt: rt,
@@ -530,6 +546,11 @@ impl WarmSel for Val<Zst> {
 impl WarmSel for u32 {
     fn fns(w: &Warm) -> Arc<Fns<Self>> {
         w.u32.clone()
+    }
+}
+impl WarmSel for () {
+    fn fns(w: &Warm) -> Arc<Fns<Self>> {
+        w.unit.clone()
     }
 }
 impl WarmSel for Option<RotoString> {
